@@ -211,6 +211,11 @@ def check_argument_names(run, A, module_prefixes, rule='R-ARGNAME'):
                 r = A.prog.lookup(fn.mod, c.func.id)
                 if isinstance(r, Func):
                     cal = r
+            elif isinstance(c.func, ast.Attribute) and isinstance(c.func.value, ast.Name) and fn.cls is not None and (fn.posonly + fn.args)[:1] == [c.func.value.id] \
+                    and not fn.is_static and A.prog.method(fn.cls, c.func.attr) is not None:
+                # self.method(...): the method of the enclosing class (or a base class)
+                cal = A.prog.method(fn.cls, c.func.attr)
+                skip = 0 if cal.is_static else 1
             elif isinstance(c.func, ast.Attribute) and methods.get(c.func.attr):
                 recv = c.func.value
                 if isinstance(recv, ast.Name):
